@@ -71,16 +71,16 @@ def _alarm(*a):
     raise _TO()
 
 
-def timed_parse(text):
+def timed_parse(text, hard=HARD):
     import pytrs
     signal.signal(signal.SIGALRM, _alarm)
-    signal.setitimer(signal.ITIMER_REAL, HARD)
+    signal.setitimer(signal.ITIMER_REAL, hard)
     t0 = time.perf_counter()
     try:
         pytrs.PLSSDesc(text, parse_qq=True)
         return time.perf_counter() - t0
     except _TO:
-        return HARD
+        return hard
     except Exception:  # noqa (totality is C03's business)
         return time.perf_counter() - t0
     finally:
@@ -133,7 +133,20 @@ def structural(k):
         ('sec_list', 'T154N-R97W Secs ' + ', '.join(str(i % 36 + 1) for i in range(k)) + ': NE/4'),
         ('aliquots', 'T154N-R97W Sec 14: ' + ' '.join('NE/4' for i in range(k))),
         ('twprge_only', ' '.join('T154N-R97W' for i in range(k))),
+        # a plain comma-separated list of k sections followed by a Twp/Rge (S_desc_TR), or followed by another Twp/Rge group
+        ('sec_list_then_tr', 'Sections ' + ', '.join(str(i % 36 + 1) for i in range(k)) + ' T154N-R97W: NE/4'),
+        ('trs_sec_list_then_tr', 'T154N-R97W Sections ' + ', '.join(str(i % 36 + 1) for i in range(k)) + ': NE/4, T155N-R97W Sec 1: NE/4'),
+        ('lot_list_then_text', 'T154N-R97W Sec 14: Lots ' + ', '.join(str(i + 1) for i in range(k)) + ' x'),
+        ('sec_and_list', 'T154N-R97W Sec ' + ' and '.join(str(i % 36 + 1) for i in range(k)) + ' NE/4'),
+        # elided ranges multiply: one tract per section, each with every lot
+        ('range_product', f'T154N-R97W Sec 1-{min(999, 42 * k)}: Lots 1-{min(999, 42 * k)}'),
+        ('lot_range', f'T154N-R97W Sec 14: Lots 1 - {"9" * max(1, k // 3)}'),
+        ('sec_range', f'T154N-R97W Secs 1 - {"9" * max(1, k // 3)}: NE/4'),
     ]
+
+
+STRUCTURAL_KNOWN = {'sec_list_then_tr': 'C16-section-list-before-twprge', 'trs_sec_list_then_tr': 'C16-section-list-before-twprge',
+                    'range_product': 'C16-range-product'}
 
 
 def units_from_patterns(rng):
@@ -222,16 +235,20 @@ def run(ctx):
     rep.extra['slow_cases'] = slow[:40]
     rep.sample({'prefix': cases[1][0], 'unit': cases[1][1], 'suffix': cases[1][2]}, cap=2)
     # structural repetition
-    for k in ([5, 10, 20] if not ctx.thorough else [5, 10, 20, 40]):
+    for k in ([6, 12, 24] if not ctx.thorough else [6, 12, 24, 36, 48]):
         for name, text in structural(k):
-            t = timed_parse(text)
+            if len(text) > LIMIT + 60:
+                continue
+            t = timed_parse(text, hard=12.0)
             rep.count()
             rep.nontrivial((name, k))
             if t > SLOW:
-                t2 = timed_parse(dict(structural(max(2, k // 2)))[name])
+                t2 = timed_parse(dict(structural(max(2, k // 2)))[name], hard=12.0)
                 if t > 3 * max(t2, 1e-3):
                     rep.violation('failing-input', {'text': text[:400], 'length': len(text), 'family': ['structural', name, k], 'seconds': round(t, 2),
-                                                    'why': 'structural repetition: time exceeds 2 s and grows super-linearly'})
+                                                    'seconds_at_half_size': round(t2, 2),
+                                                    'why': 'structural repetition: time exceeds 2 s and grows super-linearly'},
+                                  tag=STRUCTURAL_KNOWN.get(name))
     rep.sample({'structural': 'k lines each repeating a Twp/Rge; k sections; k lots'}, cap=3)
     # the model's cost analysis is tied to the regenerated patterns by the build; the driver reports which patterns are Safe
     if ctx.driver is not None:
